@@ -94,6 +94,10 @@ def gen_expr(rng, signals):
         digits = {2: format(z, 'b'), 8: format(z, 'o'), 10: str(z), 16: format(z, rng.choice(['x', 'X']))}[base]
         if rng.random() < 0.3:
             digits = '0' * rng.randrange(1, 4) + digits
+        if base == 16 and rng.random() < 0.3:
+            # zero-padded hex numerals whose second digit is b, d, e ...: they only look like a radix prefix
+            digits = '0' + rng.choice('bBdDeEoO'.replace('o', 'c').replace('O', 'C')) + ''.join(rng.choice('0123456789abcdefABCDEF') for _ in range(rng.randrange(1, 8)))
+            z = int(digits, 16)
         return f'(string->int "{digits}" {base})', z, True
     if kind == 'i2s':
         z = signed(rng)
